@@ -252,7 +252,7 @@ def tournament_cases(draw):
                         "mk": draw(st.sampled_from([True, True, False])),
                         # ranks/crowding are given, not recomputed: PSOGA runs tournaments on un-ranked swarms
                         "crowd": draw(st.sampled_from([0.0, 0.5, 1.0, 2.0, float("inf")]))})
-    return {"members": members, "seed": draw(st.integers(0, 2 ** 31))}
+    return {"members": members, "seed": draw(st.integers(0, 2 ** 31)), "calls": draw(st.sampled_from([1, 2, 4, 8]))}
 
 
 def check_tournament(case):
@@ -269,17 +269,29 @@ def check_tournament(case):
             ind.features["front_number"] = r["front"]
             ind.features["crowding_distance"] = r.get("crowd", 0.0)
             pop.append(ind)
-    samples = []
     real_sample = random.sample
-
-    def rec(popn, kk, *a, **kw):
-        out = real_sample(popn, kk, *a, **kw)
-        samples.append(list(out))
-        return out
     random.seed(case["seed"])
-    with Patched((ops.random, "sample", rec)):
-        with guard("tournament"):
-            w = sel.select(list(pop))
+    out = None
+    # a selector serves a whole run: several draws from the same object, each judged on its own
+    for call in range(case.get("calls", 1)):
+        samples = []
+
+        def rec(popn, kk, *a, **kw):
+            got = real_sample(popn, kk, *a, **kw)
+            samples.append(list(got))
+            return got
+        with Patched((ops.random, "sample", rec)):
+            with guard("tournament"):
+                w = sel.select(list(pop))
+        res = _judge_tournament(pop, samples, w, ":call%s" % ("1" if call == 0 else "N"))
+        if out is None or res["nt"]:
+            out = res
+    if case.get("calls", 1) > 1:
+        out["classes"] = out["classes"] + ["repeated-calls"]
+    return out
+
+
+def _judge_tournament(pop, samples, w, tag):
     if all(w is not p for p in pop):
         raise Violation("tournament", "foreign-winner", "select returned an object that is not a member")
     if len(pop) == 1:
@@ -296,16 +308,16 @@ def check_tournament(case):
         a, b = two[0]
         other = b if w is a else a
         if w is not a and w is not b:
-            raise Violation("tournament", "winner-not-candidate", "winner is neither of the two drawn candidates")
+            raise Violation("tournament", "winner-not-candidate" + tag, "winner is neither of the two drawn candidates")
         if loses(w, other):
-            raise Violation("tournament", "worse-candidate-won", "candidates front/costs %r vs %r: winner %r" % (
+            raise Violation("tournament", "worse-candidate-won" + tag, "candidates front/costs %r vs %r: winner %r" % (
                 (a.features["front_number"], a.costs_signed), (b.features["front_number"], b.costs_signed),
                 (w.features["front_number"], w.costs_signed)))
         nt = a.features["front_number"] != b.features["front_number"] or O.verdict(a.costs_signed, b.costs_signed) != 0
         return {"nt": nt, "classes": ["sampled-pair", "decisive" if nt else "random-choice"]}
     # black-box consequence: the winner must not lose against every other member
     if all(loses(w, p) for p in pop if p is not w):
-        raise Violation("tournament", "winner-loses-to-all", "winner %r loses against every other member" % (
+        raise Violation("tournament", "winner-loses-to-all" + tag, "winner %r loses against every other member" % (
             (w.features["front_number"], w.costs_signed),))
     return {"nt": False, "classes": ["blackbox"]}
 
